@@ -161,6 +161,7 @@ def run(ctx):
         inside = any(n in list(ast.walk(x)) for x in lp_here)
         # the value must be loop invariant: a local defined before the loop (or the setter itself outside the loop)
         invariant = True
+        defs = []
         if inside and isinstance(val, ast.Name):
             defs = [d for d in ast.walk(m.node) if isinstance(d, ast.Assign) and dotted(d.targets[0]) == val.id]
             invariant = bool(defs) and all(not any(d in list(ast.walk(x)) for x in lp_here) for d in defs)
@@ -175,15 +176,55 @@ def run(ctx):
                "all repetitions of one request carry the same sequence number (allocated before the loop)" if invariant else
                "the sequence number is (re)allocated inside the repetition loop: repetitions of one event get different action ids",
                f"{m.module.rel}:{n.lineno}")
-        uses_mgr = "self." in src_expr and ("sequence_number" in src_expr or "allocate" in src_expr or "next" in src_expr)
-        ctx.ob("C17.identity", m.short(), "from-manager-state", uses_mgr,
-               f"the number comes from manager state that outlives the message (`{src_expr[:60]}`)", f"{m.module.rel}:{n.lineno}")
-    # manager state advances (somewhere) when a number is handed out
-    adv = [n for m in tm.methods.values() for n in ast.walk(m.node) if isinstance(n, (ast.Assign, ast.AugAssign)) and
-           dotted(n.targets[0] if isinstance(n, ast.Assign) else n.target) == "self.sequence_number" and m.name != "__init__"]
-    ctx.ob("C17.identity", tm.qual[10:], "manager-counter-advances", bool(adv),
-           "DENMTransmissionManagement.sequence_number is advanced when a number is handed out" if adv else
-           "DENMTransmissionManagement.sequence_number is initialised but never advanced or read: no event ever gets a new number", f"{tm.module.rel}:{tm.node.lineno}")
+        # where does the value come from?  either a direct read of manager state or a manager method that returns it
+        alloc_fn, alloc_node = m, None
+        vnode = defs[0].value if (inside and isinstance(val, ast.Name) and defs) else val
+        if isinstance(vnode, ast.Name) and not inside:
+            d2 = [d for d in ast.walk(m.node) if isinstance(d, ast.Assign) and dotted(d.targets[0]) == vnode.id]
+            vnode = d2[0].value if d2 else vnode
+        if isinstance(vnode, ast.Call):
+            tg = [t for t in P.call_targets(m, vnode, count=False) if isinstance(t, FuncInfo) and t.cls is tm]
+            if tg:
+                alloc_fn = tg[0]
+        reads = [x for x in ast.walk(alloc_fn.node) if isinstance(x, ast.Attribute) and isinstance(x.ctx, ast.Load) and dotted(x) == "self.sequence_number"]
+        writes = [x for x in ast.walk(alloc_fn.node) if isinstance(x, (ast.Assign, ast.AugAssign)) and
+                  dotted(x.targets[0] if isinstance(x, ast.Assign) else x.target) == "self.sequence_number"]
+        ctx.ob("C17.identity", m.short(), "from-manager-state", bool(reads),
+               f"the number is read from DENMTransmissionManagement.sequence_number (in {alloc_fn.short()}), state that outlives the message",
+               f"{m.module.rel}:{n.lineno}")
+        in_loop = any(w in list(ast.walk(x)) for w in writes for x in lp_here) if alloc_fn is m else inside and not invariant
+        adv_ok = False
+        for w in writes:
+            if isinstance(w, ast.AugAssign):
+                adv_ok = isinstance(w.op, ast.Add) and P.try_fold(alloc_fn.module, w.value) == 1
+            else:
+                outs = []
+                for k in (0, 1, 7):
+                    class Sub(ast.NodeTransformer):
+                        def visit_Attribute(self, a):
+                            return ast.Constant(k) if dotted(a) == "self.sequence_number" else a
+                    import copy
+                    outs.append(P.try_fold(alloc_fn.module, ast.fix_missing_locations(Sub().visit(copy.deepcopy(w.value)))))
+                adv_ok = outs == [1, 2, 8]
+        ctx.ob("C17.identity", m.short(), "advances-once-per-event", bool(writes) and adv_ok and not in_loop,
+               f"handing out a number advances the manager's counter by one, once per event (in {alloc_fn.short()})" if writes and adv_ok and not in_loop
+               else "the manager's counter is not advanced by one exactly once per event: two events can get the same action id",
+               f"{alloc_fn.module.rel}:{(writes[0].lineno if writes else alloc_fn.node.lineno)}")
+        # requests run on their own threads (request_denm_sending): read and advance must be one critical section
+        withs = [x for x in ast.walk(alloc_fn.node) if isinstance(x, ast.With)]
+        atomic = bool(reads) and bool(writes) and any(all(r in list(ast.walk(wb)) for r in reads) and all(w in list(ast.walk(wb)) for w in writes)
+                                                      and any("lock" in norm(unparse(i.context_expr)).lower() for i in wb.items) for wb in withs)
+        ctx.ob("C17.identity", m.short(), "allocation-atomic", atomic,
+               "read-and-advance of the counter is one critical section (requests run on concurrent threads)" if atomic else
+               "the counter is read and advanced without a lock although every request runs on its own thread: two concurrent events can draw the same number",
+               f"{alloc_fn.module.rel}:{alloc_fn.node.lineno}")
+    # the message-local counter must not override what the manager set before the store
+    for n in ast.walk(fv.node):
+        if isinstance(n, ast.Assign) and dotted(n.targets[0]) == "self.sequence_number":
+            st_store = [x for x in ast.walk(fv.node) if isinstance(x, ast.Assign) and isinstance(x.targets[0], ast.Subscript) and
+                        norm(unparse(x.targets[0])).endswith("['sequenceNumber']")]
+            ctx.ob("C17.identity", fv.short(), "no-rewrite-before-store", all(n.lineno > x.lineno for x in st_store),
+                   "the message object does not change its sequence number before it is written into actionId", f"{fv.module.rel}:{n.lineno}")
 
     # ---------------------------------------------------------------- LDM feed
     rx = P.cls(RX)
